@@ -210,3 +210,43 @@ package gnet
 //@   ensures SI(c) && n == wpos[ref(w)] - old(wpos[ref(w)]) && 0 <= n && n <= old(icnt(c)) && c.cons == old(c.cons) + n
 //@   ensures forall i :: 0 <= i && i < n ==> wdata[ref(w)][old(wpos[ref(w)]) + i] == kdata[c.fd][old(c.cons) + i]
 //@   ensures !wfail[ref(w)] ==> n == old(icnt(c))
+
+// ---------------------------------------------------------------------------------------------
+// C14: the connection registry (default build: map based)
+//
+// Abstract view: reg(cm, fd) is the connection registered under fd (nil: none); the count is the size of the domain.
+//@ pure reg(cm *connMatrix, fd int) *conn := cm.connMap[fd]
+//@ pred cmwf(cm *connMatrix) := cm != nil && cm.connMap != nil && cm.connCount == len(cm.connMap) && cm.connCount >= 0 &&
+//@     (forall fd :: has(cm.connMap, fd) ==> cm.connMap[fd] != nil)
+//
+//@ func (cm *connMatrix) init()
+//@   requires cm != nil && cm.connCount == 0
+//@   modifies cm.connMap
+//@   ensures cmwf(cm) && fresh(cm.connMap) && (forall fd :: reg(cm, fd) == nil)
+//
+//@ func (cm *connMatrix) incCount(row int, delta int32)
+//@   requires cm != nil && -2147483648 <= cm.connCount + delta && cm.connCount + delta <= 2147483647
+//@   modifies cm.connCount
+//@   ensures cm.connCount == old(cm.connCount) + delta
+//
+//@ func (cm *connMatrix) loadCount() (n int32)
+//@   requires cm != nil
+//@   ensures n == cm.connCount
+//
+// addConn: registers c under its descriptor; every other descriptor keeps its entry.
+//@ func (cm *connMatrix) addConn(c *conn, index int)
+//@   requires cmwf(cm) && c != nil && reg(cm, c.fd) == nil && cm.connCount < 2147483647
+//@   modifies mapof(cm.connMap), cm.connCount, mem(c.gfd), *gfd.monoSeq
+//@   ensures cmwf(cm) && reg(cm, c.fd) == c && cm.connCount == old(cm.connCount) + 1
+//@   ensures forall fd :: fd != c.fd ==> reg(cm, fd) == old(reg(cm, fd))
+//
+// delConn: removes the entry of c's descriptor.
+//@ func (cm *connMatrix) delConn(c *conn)
+//@   requires cmwf(cm) && c != nil && reg(cm, c.fd) != nil
+//@   modifies mapof(cm.connMap), cm.connCount
+//@   ensures cmwf(cm) && reg(cm, c.fd) == nil && cm.connCount == old(cm.connCount) - 1
+//@   ensures forall fd :: fd != c.fd ==> reg(cm, fd) == old(reg(cm, fd))
+//
+//@ func (cm *connMatrix) getConn(fd int) *conn
+//@   requires cm != nil
+//@   ensures res == reg(cm, fd)
